@@ -803,8 +803,21 @@ func runC12(c *Ctx) {
 	// R12a repo-wide
 	guardedIndexLint(c, "R12a")
 	guarded := false
+	execCallees := map[string]bool{"migrate.(Executor).Execute": true}
+	if ex := c.LookupFunc(pMigrate, "Executor", "Execute"); ex != nil && ex.Decl.Body != nil {
+		for _, call := range callsIn(ex.Decl.Body, true) {
+			if fn := calleeOf(ex.Info(), call); fn != nil && fn.Pkg() != nil && fn.Pkg().Path() == pMigrate {
+				if g := c.FuncInfoOf(fn); g != nil {
+					execCallees[g.Name] = true
+				}
+			}
+		}
+	}
 	for _, o := range c.obls {
-		if o.Rule == "R12a" && strings.HasPrefix(o.Key, "migrate.(Executor).Execute|") {
+		if o.Rule != "R12a" {
+			continue
+		}
+		if i := strings.Index(o.Key, "|"); i > 0 && execCallees[o.Key[:i]] {
 			guarded = true
 		}
 	}
@@ -840,7 +853,9 @@ func runC12(c *Ctx) {
 		var loopBody *ast.BlockStmt
 		var loopCond ast.Node
 		var loopPos token.Pos
+		var viaHelper ast.Node
 		covers := false
+		info := info // the loop may live in a helper with its own type info
 		switch loop := lnode.(type) {
 		case *ast.ForStmt:
 			loopBody, loopCond, loopPos = loop.Body, loop.Cond, loop.Pos()
@@ -872,8 +887,44 @@ func runC12(c *Ctx) {
 				covers = true
 			}
 		default:
-			c.Unresolved("R12b", "HistoryChangedError is not constructed inside a loop over the applied statements")
-			continue
+			// the comparison loop may live in a package-local helper whose result guards the refusal:
+			// `if i := firstChanged(r, sums); i != -1 { err = HistoryChangedError{…} … }`
+			hinfo, hloop, callNode := helperCompareLoop(c, s, node)
+			if hloop == nil {
+				c.Unresolved("R12b", "HistoryChangedError is not constructed inside a loop over the applied statements (nor guarded by the result of a helper that contains that loop)")
+				continue
+			}
+			info = hinfo
+			viaHelper = callNode
+			switch loop := hloop.(type) {
+			case *ast.ForStmt:
+				loopBody, loopCond, loopPos = loop.Body, loop.Cond, loop.Pos()
+				if as, ok := loop.Init.(*ast.AssignStmt); ok && len(as.Lhs) == 1 && len(as.Rhs) == 1 {
+					if id, ok := as.Lhs[0].(*ast.Ident); ok {
+						if tv := info.Types[as.Rhs[0]]; tv.Value != nil && tv.Value.String() == "0" {
+							iv = info.ObjectOf(id)
+						}
+					}
+				}
+				condOK, postOK := false, false
+				if be, ok := loop.Cond.(*ast.BinaryExpr); ok && be.Op == token.LSS && iv != nil {
+					if id, ok := be.X.(*ast.Ident); ok && info.ObjectOf(id) == iv && isField(info, be.Y, pMigrate, "Revision", "Applied") {
+						condOK = true
+					}
+				}
+				if inc, ok := loop.Post.(*ast.IncDecStmt); ok && inc.Tok == token.INC {
+					if id, ok := inc.X.(*ast.Ident); ok && info.ObjectOf(id) == iv {
+						postOK = true
+					}
+				}
+				covers = iv != nil && condOK && postOK
+			case *ast.RangeStmt:
+				loopBody, loopCond, loopPos = loop.Body, loop.X, loop.Pos()
+				if id, ok := loop.Key.(*ast.Ident); ok && loop.Value == nil && isField(info, loop.X, pMigrate, "Revision", "Applied") {
+					iv = info.ObjectOf(id)
+					covers = true
+				}
+			}
 		}
 		c.Check("R12b", "Execute|compare-loop covers [0,Applied)", loopPos, covers, "the comparison loop must visit every index 0 … r.Applied-1 (for i := 0; i < r.Applied; i++, or for i := range r.Applied)")
 		// the guarding if: condition mentions sums[i] and PartialHashes[i] with i == iv
@@ -920,7 +971,20 @@ func runC12(c *Ctx) {
 		c.Check("R12b", "Execute|hash prefix agreement", node.Pos(), prefix == appPrefix, "the prefix trimmed before comparing (%q) differs from the prefix prepended when recording (%q)", prefix, appPrefix)
 
 		// dominance: entry -> ExecContext must pass the loop condition, except via the false edge of `Applied > 0`
-		isLoopCond := func(n ast.Node) bool { return n == loopCond }
+		isLoopCond := func(n ast.Node) bool {
+			if viaHelper != nil {
+				hit := false
+				ast.Inspect(n, func(m ast.Node) bool {
+					if m == viaHelper {
+						hit = true
+					}
+					return !hit
+				})
+				return hit
+			}
+			return n == loopCond
+		}
+		info = s.fi.Info() // back to Execute for the flow rules
 		bypass := func(b *cfg.Block, si int) bool {
 			// the edge on which `r.Applied > 0` (or != 0) is false: nothing was applied
 			return edgeImplies(b, si, func(e ast.Expr, val bool) bool {
@@ -1226,4 +1290,56 @@ func errReturnLint(c *Ctx, rule string, want func(*FuncInfo) bool) {
 			return true
 		})
 	})
+}
+
+// helperCompareLoop: the HistoryChangedError at node is constructed under an if whose
+// condition tests the result of a package-local helper called with the revision; returns the
+// helper's type info, its (single) loop, and the call expression in Execute.
+func helperCompareLoop(c *Ctx, s *execShape, node ast.Node) (*types.Info, ast.Node, ast.Node) {
+	info := s.fi.Info()
+	for p := s.pm[node]; p != nil; p = s.pm[p] {
+		ifs, ok := p.(*ast.IfStmt)
+		if !ok {
+			continue
+		}
+		var call *ast.CallExpr
+		find := func(n ast.Node) {
+			if n == nil {
+				return
+			}
+			ast.Inspect(n, func(m ast.Node) bool {
+				if ce, ok := m.(*ast.CallExpr); ok && call == nil {
+					if fn := calleeOf(info, ce); fn != nil && fn.Pkg() != nil && fn.Pkg().Path() == pMigrate {
+						for _, a := range ce.Args {
+							if typeIs(derefType(info.TypeOf(a)), pMigrate, "Revision") {
+								call = ce
+							}
+						}
+					}
+				}
+				return true
+			})
+		}
+		find(ifs.Init)
+		find(ifs.Cond)
+		if call == nil {
+			continue
+		}
+		hf := c.FuncInfoOf(calleeOf(info, call))
+		if hf == nil || hf.Decl.Body == nil {
+			continue
+		}
+		var loops []ast.Node
+		ast.Inspect(hf.Decl.Body, func(m ast.Node) bool {
+			if isLoop(m) {
+				loops = append(loops, m)
+			}
+			return true
+		})
+		if len(loops) != 1 {
+			continue
+		}
+		return hf.Info(), loops[0], call
+	}
+	return nil, nil, nil
 }
